@@ -30,7 +30,7 @@ COVER = {
         note="flushDenormals only sets FTZ/DAZ in the calling thread's MXCSR (the same on every backend; worker threads are not touched): not "
              "about the thread count; the fact table ignores exactly that block and fails closed on anything else; histories with the flag "
              "set must report the same numbers (op init_flag)"),
-    (_ICPP, "function", "numTaskingThreads", "int ()"): dict(b=_ALLB, thms=["threads_before_init", "facts_denote_report_src", "threads_uses_are_transparent"], ops=["init", "use"]),
+    (_ICPP, "function", "numTaskingThreads", "int ()"): dict(b=_ALLB, thms=["threads_before_init", "facts_denote_report_src", "threads_uses_are_transparent"], ops=["init", "use", "qs"]),
     (_ICPP, "class", "tasking_system_handle", "struct"): dict(b=_ALLB, thms=["facts_denote_construct_src", "facts_denote_init_src"], ops=["init"]),
     (_ICPP, "ctor", "tasking_system_handle::<ctor>", "void (int)"): dict(b=_ALLB, thms=["facts_denote_construct_src", "threads_after_init_src", "internal_worker_count"], ops=["init", "pf"]),
     (_ICPP, "field", "tasking_system_handle::numThreads", "int"): dict(b=_ALLB, thms=["facts_denote_construct_src"], ops=["init"],
@@ -38,7 +38,7 @@ COVER = {
     (_ICPP, "field", "tasking_system_handle::tbb_gc", "std::unique_ptr<tbb::global_control>"): dict(b="tbb", thms=["tbb_only_new_control_live", "tbb_limit_during_reinit", "tbb_limit_during_reinit_src"], ops=["tbb:init", "tbb:cre", "tbb:pf"]),
     (_ICPP, "method", "tasking_system_handle::num_threads", "int ()"): dict(b=_ALLB, thms=["facts_denote_report_src", "threads_openmp_last_positive"], ops=["init"]),
     (_ICPP, "variable", "g_tasking_handle", "std::unique_ptr<tasking_system_handle> static"): dict(b=_ALLB, thms=["init_shape_src", "threads_before_init_src", "threads_last_init_determines"], ops=["init"]),
-    ("detail/TaskSys.cpp", "function", "detail::initTaskSystemInternal", "void (int)"): dict(b="int", thms=["facts_denote_construct_src", "internal_worker_count", "internal_default_worker_count", "internal_workers_never_accumulate", "worker_loop_src"], ops=["internal:init", "internal:pf"]),
+    ("detail/TaskSys.cpp", "function", "detail::initTaskSystemInternal", "void (int)"): dict(b="int", thms=["facts_denote_construct_src", "internal_worker_count", "internal_default_worker_count", "internal_workers_never_accumulate", "worker_loop_src"], ops=["internal:init", "internal:pf", "internal:rif"]),
     ("detail/TaskSys.cpp", "function", "detail::numThreadsTaskSystemInternal", "int ()"): dict(b="int", thms=["facts_denote_report_src"], ops=["internal:init"]),
     ("detail/TaskSys.cpp", "function", "detail::scheduleTaskInternal", "void (detail::Task *)"): dict(b="int", thms=["threads_zero_without_init_whatever_uses", "threads_uses_are_transparent"], ops=["internal:use"],
         note="lazy start of the scheduler (if g_ts is null): a use is not an initialisation"),
@@ -476,6 +476,94 @@ def _run(ctx):
         except Exception as ex:
             stage_fail("scenarios of the %s backend" % b, ex)
     ctx.cov["other_thread_loop_observations"] = ot_obs
+    # ---- numTaskingThreads() asked from different SITES (main thread, first-level loop body, nested loop body, scheduled task)
+    qs_obs = {}
+    for b in BACKENDS:
+        try:
+            if b not in hws:
+                continue
+            qcases = [(1,), (3,), (8,)]
+            rc, ql, qerr = run_batch(ctx, hx[b], "qs", ["%d" % c for c in qcases], b, timeout=120)
+            if rc != 0 or len(ql) != len(qcases):
+                ctx.violation("%s backend: the query-site harness died (rc=%d)" % (b, rc), {"backend": b, "stderr_tail": qerr[-1500:]}, found_input=False)
+                continue
+            ctx.count(len(qcases))
+            opcount[b + ":qs"] = len(qcases)
+            for (n,), l in zip(qcases, ql):
+                f = dict(x.split("=") for x in l.split() if "=" in x)
+                qs_obs["%s:n=%d" % (b, n)] = l
+                want = "1" if b == "debug" else str(n)
+                sites = ["main", "loop_body_min", "loop_body_max", "nested_body_min", "nested_body_max"]
+                # a scheduled task: not judged on OpenMP (it runs on its own std::thread: per-thread ICV, see the open finding) nor on
+                # the internal backend with ONE thread (the closure is not run without a wait: C02's open finding)
+                if not (b == "omp" or (b == "internal" and n == 1)):
+                    sites.append("scheduled_task")
+                wrong = {s: f.get(s) for s in sites if f.get(s) != want}
+                if wrong:
+                    ctx.violation("%s backend: after initTaskingSystem(%d), numTaskingThreads() asked from %s returns %s; required: %s at every site "
+                                  "(observed: %s)" % (b, n, ", ".join(sorted(wrong)), ", ".join(str(wrong[k]) for k in sorted(wrong)), want, l),
+                                  {"backend": b, "case": {"init": n, "sites": "main thread; body of parallel_for(4n); body of a parallel_for(4) nested in "
+                                                                             "parallel_for(n); a schedule()d closure"},
+                                   "observed": l, "required": {s: want for s in sites}})
+                    break
+                ctx.nontriv(("qs", b, n))
+        except SkipStage:
+            continue
+        except Exception as ex:
+            stage_fail("query sites on the %s backend" % b, ex)
+    ctx.cov["query_site_observations"] = qs_obs
+    # ---- re-initialisation with scheduled tasks IN FLIGHT that themselves run measured parallel_for loops (not on OpenMP: the
+    # tasks are std::threads there, see the open finding)
+    rif_obs = {}
+    for b in ("internal", "tbb", "debug"):
+        try:
+            if b not in hws:
+                continue
+            rcases = [(3, 8, 6), (8, 3, 6), (2, 2, 4), (2, 4, 6)]
+            rc, rl, rerr = run_batch(ctx, hx[b], "rif", ["%d %d %d" % c for c in rcases], b, timeout=180)
+            if rc != 0 or len(rl) != len(rcases):
+                ctx.violation("%s backend: the re-init-in-flight harness died (rc=%d)" % (b, rc), {"backend": b, "stderr_tail": rerr[-1500:]}, found_input=False)
+                continue
+            ctx.count(len(rcases))
+            opcount[b + ":rif"] = len(rcases)
+            for c, l in zip(rcases, rl):
+                n, m, k = c
+                rif_obs["%s:%d->%d" % (b, n, m)] = l
+                scen = ("initTaskingSystem(%d); %d schedule()d closures each running 6 x parallel_for(48, body 80 us); after 300 us "
+                        "initTaskingSystem(%d); then 4 x parallel_for(64) from the main thread" % (n, k, m))
+                if l.startswith("HANG"):
+                    continue          # reproducible hang: reported by run_batch
+                f = dict(x.split("=") for x in l.split() if "=" in x)
+                lim_all = 1 if b == "debug" else max(n, m)
+                lim_after = 1 if b == "debug" else (m if b == "internal" else max(n, m))
+                want_rep = 1 if b == "debug" else m
+                def verdict(ff):
+                    if "max_inside" not in ff:
+                        return ["no crash"]
+                    v = []
+                    if int(ff["report"]) != want_rep: v.append("numTaskingThreads() == %d after the re-initialisation" % want_rep)
+                    if int(ff["tasks_done"]) != k: v.append("all %d in-flight closures complete" % k)
+                    if int(ff["max_inside"]) > lim_all: v.append("never more than max(%d,%d) = %d bodies at once" % (n, m, lim_all))
+                    if int(ff["max_inside_after_return"]) > lim_after: v.append("after initTaskingSystem(%d) returned at most %d bodies at once" % (m, lim_after))
+                    return v
+                v1 = verdict(f)
+                if not v1:
+                    ctx.nontriv(("rif", b, c))
+                    continue
+                rc2, o2, e2 = ctx.run_exe(hx[b], ["rif"], stdin="%d %d %d\n" % c, timeout=120)      # confirm on a second run
+                l2 = o2.strip().split("\n")[-1] if o2.strip() else "<no output>"
+                v2 = verdict(dict(x.split("=") for x in l2.split() if "=" in x))
+                if v2:
+                    ctx.violation("%s backend: %s: %s (second run: %s); required: %s" % (b, scen, l[:200], l2[:200], "; ".join(sorted(set(v1 + v2)))),
+                                  {"backend": b, "case": {"init_before": n, "init_during": m, "in_flight_closures": k, "scenario": scen},
+                                   "observed": [l, l2], "required": sorted(set(v1 + v2)), "stderr_tail": (rerr + e2)[-1500:]})
+                    break
+                ctx.cov.setdefault("unconfirmed_concurrency_excess", []).append({"backend": b, "case": c, "first": l, "second": l2})
+        except SkipStage:
+            continue
+        except Exception as ex:
+            stage_fail("re-initialisation with tasks in flight on the %s backend" % b, ex)
+    ctx.cov["reinit_in_flight_observations"] = rif_obs
     # ---- concurrent re-initialisation: one thread keeps looping parallel_for while the main thread alternates
     # initTaskingSystem(n) / initTaskingSystem(m); never more than max(n, m) threads inside bodies at once
     # (TBB: the new global_control is created before the old one is released — theorem tbb_limit_during_reinit).
